@@ -348,13 +348,20 @@ func (w *World) opGCPass(op Op) {
 			}
 			for _, f := range []string{"index.json", "oci-layout", "blobs", "_uploads"} {
 				if _, err := os.Stat(filepath.Join(w.root, repo, f)); err == nil {
-					w.x.viol([]string{"C06"}, "gc.empty-repo-left", f, fmt.Sprintf("repository %s holds nothing after the pass but %s/%s still exists (EmptyRepo is on)", repo, repo, f))
+					note := ""
+					if len(mr.staleRef) > 0 {
+						note = " [artifact deleted after its blob]"
+					}
+					w.x.viol([]string{"C06"}, "gc.empty-repo-left", f+note, fmt.Sprintf("repository %s holds nothing after the pass but %s/%s still exists (EmptyRepo is on)%s", repo, repo, f, note))
+					if note != "" {
+						w.x.resync()
+					}
 					break
 				}
 			}
 		}
 	}
-	if len(w.x.out.Viol) > 0 {
+	if len(w.x.out.Viol) > 0 && !w.x.allResynced {
 		return
 	}
 	// a second pass changes nothing
@@ -535,6 +542,9 @@ func (g *gen) gcHistoryOp(repo int, images, indexes, arts []int, extraBlob int) 
 		if g.r.chance(40) {
 			o := g.p.Objs[images[0]]
 			g.add(Op{K: "del", Mode: "blob", Repo: repo, Obj: g.r.pick(extraBlob, o.Config)})
+		} else if m, ok := g.pushedMan(repo); ok && g.r.chance(50) {
+			// the blob endpoint removes the content of a manifest: its index entry has nothing behind it any more
+			g.add(Op{K: "del", Mode: "blob", Repo: repo, Obj: m})
 		}
 	case 9:
 		// tag move
